@@ -72,6 +72,13 @@ def r_C17eval(root):
     k, c1 = call(repo, "load_model", mm.sample, "/m/c.mdl", False, model_params={})
     allm = table(repo.get(".all_models"))
     rep("C17.m", "a model the meta-model returns from its own cache (no callback) is registered", k == "ret" and c1 is cached and (allm or {}).get("/m/c.mdl") is cached, "a file the meta-model already holds in its own global repository (so the pre-reference-resolution callback does not run): load_model %s; documented: that model, registered under its file in all_models" % ("raises " + str(c1) if k == "raise" else "returns it but all_models lacks it" if c1 is cached else "returns something else"), witness="language with global_repository=True imported from a language without")
+    # ---- a file of another language whose meta-model owns a global repository of its own
+    mm2 = MMStub(); own_repo = new_repo(); mm2.sample["._tx_model_repository"] = own_repo
+    k, x1 = call(repo, "load_model", mm2.sample, "/m/x.other", False, model_params={})
+    xr = x1.get("._tx_model_repository") if k == "ret" and isinstance(x1, dict) else None
+    okx = k == "ret" and isinstance(xr, pyeval.Inst) and xr.get(".all_models") is repo.get(".all_models") and (table(repo.get(".all_models")) or {}).get("/m/x.other") is x1 and not table(own_repo.get(".all_models")) and not table(own_repo.get(".local_models"))
+    for cl_ in ("C17.m", "C18.j"):
+        rep(cl_, "a file of another language is cached in the loader's repository only", okx, "loading /m/x.other, whose meta-model has a global repository of its own, on behalf of a model of this repository %s; the imported model's repository %s the loader's table of all models and the other meta-model's own repository holds %s afterwards (documented: one table of all models per load - the loader's - shared by every model of the import closure; the other meta-model's repository is not touched, so a failing load has one place to clean)" % ("completes" if k == "ret" else "raises " + str(x1), "shares" if isinstance(xr, pyeval.Inst) and xr.get(".all_models") is repo.get(".all_models") else "does not share", sorted(table(own_repo.get(".all_models")) or {}) or "nothing"), witness="two languages, both meta-models created with global_repository=True, a model of one importing a file of the other")
     # ---- failing load
     mm.fail.add("/m/bad.mdl")
     k, v = call(repo, "load_model", mm.sample, "/m/bad.mdl", False, model_params={})
@@ -122,6 +129,7 @@ def r_C15eval(root):
         def parser_(tag): return HS({".kind": "parser", ".tag": tag, "._restore_user_attr_methods": pyeval.PyFn(lambda: plog.append(("restore", tag))), "._release_user_obj_attrs": pyeval.PyFn(lambda: plog.append(("release", tag)))})
         # the main model has finished its construction; the imported one is still under construction (its parser holds the user classes instrumented)
         new1 = HS({".kind": "model", "._tx_filename": "/m/main.mdl", "._tx_parser": parser_("main")}); new2 = HS({".kind": "model", "._tx_filename": "/m/imported.mdl", "._tx_parser": parser_("imported"), "._tx_reference_resolver": None})
+        new3 = HS({".kind": "model", "._tx_filename": "/m/deeper.mdl", "._tx_parser": parser_("deeper"), "._tx_reference_resolver": None})      # imported by the imported model, under construction too
         repo = None
         if with_repo:
             env0 = {"__classdefs__": cds, "__functions__": fns_s, "abspath": pyeval.PyFn(lambda p: p)}
@@ -131,7 +139,7 @@ def r_C15eval(root):
         k, cached = objmodel.call_method(root, me, base, "_cached_model_ids")
         if k != "ret": return ("ids raise " + cached.cls, None, None, None)
         if with_repo:
-            for m_ in (new1, new2): repo[".all_models"][".filename_to_model"][m_["._tx_filename"]] = m_
+            for m_ in (new1, new2, new3): repo[".all_models"][".filename_to_model"][m_["._tx_filename"]] = m_
         ran = []
         def proc(model, mm_):
             ran.append(model)
@@ -146,6 +154,7 @@ def r_C15eval(root):
         k, v = objmodel.call_method(root, me, base, "_call_model_processors", new2 if fail == "imported" else new1, cached)
         left = dict(repo[".all_models"][".filename_to_model"]) if with_repo else None
         scenario.plog = plog
+        scenario.new3 = new3
         return (k if k == "ret" else "raise " + v.cls, left, (old1, old2, new1, new2), ran)
     W = "TextXMetaModel._call_model_processors"
     def rep(what, ok, msg):
@@ -156,19 +165,19 @@ def r_C15eval(root):
     if left is None: raise AnalysisError("_cached_model_ids: %s" % k)
     old1, old2, new1, new2 = ms
     rep("a failing model processor: the error propagates", k == "raise ValueError" and ran == [new1], "a model processor raising ValueError: _call_model_processors %s" % k)
-    rep("... the models added by this load are removed", not any(m_ is new1 or m_ is new2 for m_ in left.values()), "after a model processor failed the global repository still holds %s of this load: the main model and every model it imported must not stay cached (the next load would reuse half-processed models)" % [f for f, m_ in left.items() if m_ is new1 or m_ is new2])
+    rep("... the models added by this load are removed", not any(m_ is new1 or m_ is new2 or m_ is scenario.new3 for m_ in left.values()), "after a model processor failed the global repository still holds %s of this load: the main model and every model it imported (directly or not) must not stay cached (the next load would reuse half-processed models)" % [f for f, m_ in left.items() if m_ is new1 or m_ is new2 or m_ is scenario.new3])
     rep("... the models cached before stay", left.get("/m/old1.mdl") is old1 and left.get("/m/old2.mdl") is old2, "after a model processor failed the models cached before this load are %s: they must stay cached (same objects), a later load of those files would otherwise create second instances" % ("partly gone: " + str(sorted(left)) if left else "all gone"))
     # a model processor fails for the model loaded on behalf of another one: it leaves the repository, so nobody else can abandon it
     k, left, ms, ran = scenario("imported")
     plog = scenario.plog
-    okp = k == "raise ValueError" and [e for e in plog if e[1] == "imported"] == [("restore", "imported"), ("release", "imported")]
+    okp = k == "raise ValueError" and [e for e in plog if e[1] == "imported"] == [("restore", "imported"), ("release", "imported")] and [e for e in plog if e[1] == "deeper"] == [("restore", "deeper"), ("release", "deeper")]
     inst += 1; ob("C15", "C15.m", MMF, W, "a model removed from the repository while under construction has its user classes restored", okp)
     if not okp: out.append(Finding("C15", "C15.m", MMF, W, "models removed from the repository by the failure handler", "a model processor fails for a model that is loaded on behalf of another model (still under construction): _call_model_processors %s and removes it from the shared repository, with the clean-up calls %s on its parser; documented: the user-class instrumentation of that parser is restored and the collected attributes released (the enclosing load's clean-up finds its models through the repository and can no longer reach this one)" % (k, [e[0] for e in plog if e[1] == "imported"]), witness="global_repository=True, classes=[...], importURI, a model processor raising for the imported file"))
     k, left, ms, ran = scenario(False)
     okn = not scenario.plog
     inst += 1; ob("C15", "C15.m", MMF, W, "no failure: no parser is touched", okn)
     if not okn: out.append(Finding("C15", "C15.m", MMF, W, "successful model processors", "with succeeding model processors the parsers of the loaded models are told to %s: the instrumentation of a load that is still running would be undone" % scenario.plog))
-    rep("no failure: nothing is removed", k == "ret" and len(left) == 4 and len(ran) == 1, "with a succeeding model processor _call_model_processors %s and the repository holds %d of 4 models" % (k, len(left)))
+    rep("no failure: nothing is removed", k == "ret" and len(left) == 5 and len(ran) == 1, "with a succeeding model processor _call_model_processors %s and the repository holds %d of 5 models" % (k, len(left)))
     k, left, ms, ran = scenario(True, with_repo=False)
     rep("no global repository: the error just propagates", k == "raise ValueError", "without a global repository a failing model processor gives %s" % k)
     return inst, out
@@ -269,4 +278,68 @@ def r_C17importuri(root):
                 kw = log[0][2] if log else {}
                 ok = ok and kw.get("encoding") == "latin-1" and kw.get("model_params") is params and kw.get("add_to_local_models") is want_local and kw.get("model") is model and isinstance(imp.get("._tx_loaded_models"), list) and len(imp["._tx_loaded_models"]) == 1
                 rep("imports: %s" % what, ok, "importing 'other.mdl' (%s): %s with encoding=%r, the model's parameters %s, add_to_local_models=%r; documented: one load through the %s function with encoding 'latin-1', the importing model's parameters and add_to_local_models=%s, the result recorded on the importing object" % (what, err or "%d load(s) through %s" % (len(log), [x[0] for x in log]), kw.get("encoding"), "passed" if kw.get("model_params") is params else "NOT passed", kw.get("add_to_local_models"), "search-path" if search_path else "file-pattern", want_local), "ImportURI._load_referenced_models", props_=("C17", "C27", "C28"), witness="import 'other' as alias with importAs and a search path")
+    return inst, out
+
+def r_globalrepo(root):
+    """C16.h  the GlobalRepo provider object is configuration, not state, decided by evaluation of GlobalRepo.__init__ /
+    register_models / _load_referenced_models (providers.py) with a recording model repository:
+       every load hands each registered pattern to load_models_using_filepattern - a relative pattern joined to THAT
+       model's project_root, an absolute one as it is - together with the model, the provider's glob_args, the encoding
+       and that model's parameters; directly added models are added to the model's repository;
+       after any number of loads (also of models given as strings, also of models that fail later) the provider holds
+       the registered patterns and the directly added models it held before - no load leaves a trace in the provider."""
+    P = "textx/scoping/providers.py"; out = []; inst = 0
+    t = load(root, P); cds = {c.name: c for c in t.body if isinstance(c, ast.ClassDef)}
+    ts = load(root, S); cds_s = {c.name: c for c in ts.body if isinstance(c, ast.ClassDef)}
+    allc = dict(cds_s); allc.update(cds)
+    if "GlobalRepo" not in cds: raise AnalysisError("providers.py: class GlobalRepo not found")
+    env = {"__classdefs__": allc, "__functions__": {f.name: f for f in t.body if isinstance(f, ast.FunctionDef)}, "__module__": t,
+           "isabs": pyeval.PyFn(lambda p_: str(p_).startswith("/")), "join": pyeval.PyFn(lambda *a_: "/".join(str(x_).rstrip("/") if i_ < len(a_) - 1 else str(x_) for i_, x_ in enumerate(a_))),
+           "abspath": pyeval.PyFn(lambda p_: p_ if str(p_).startswith("/") else "/cwd/" + str(p_)), "dirname": pyeval.PyFn(lambda p_: str(p_).rsplit("/", 1)[0]),
+           "scoping": {".ModelLoader": pyeval.ClassRef("ModelLoader"), ".GlobalModelRepository": pyeval.ClassRef("GlobalModelRepository")}}
+    for c_ in allc: env.setdefault(c_, pyeval.ClassRef(c_))
+    inner = HS({".kind": "callable", ".tag": "the wrapped provider"}); gargs = {"recursive": True}
+    def call(o, meth, *a, **k):
+        c_, f_ = pyeval.find_method(allc, o[".__cls__"], meth)
+        if f_ is None: raise AnalysisError("GlobalRepo.%s not found" % meth)
+        try: return ("ret", pyeval.call_method_of(o, c_, f_, list(a), k, env))
+        except pyeval.Raised as r_: return ("raise", r_.cls)
+        except pyeval.Unsupported as u_: raise AnalysisError("GlobalRepo.%s: outside the evaluated subset: %s" % (meth, u_))
+    try: prov = pyeval.instantiate("GlobalRepo", [inner], {"filename_pattern": "lib/*.mdl", "glob_args": gargs}, env)
+    except pyeval.Unsupported as u_: raise AnalysisError("GlobalRepo(): outside the evaluated subset: %s" % u_)
+    except pyeval.Raised as r_: raise AnalysisError("GlobalRepo() raises %s" % r_.cls)
+    call(prov, "register_models", "/abs/std/*.mdl")
+    direct = HS({".kind": "model", "._tx_filename": None, ".tag": "added directly"})
+    call(prov, "add_model", direct)
+    W = "GlobalRepo._load_referenced_models"
+    def rep(what, ok, msg, props_=("C16", "C17", "C18")):
+        nonlocal inst
+        inst += 1
+        for pr in props_:
+            ob(pr, "C16.h", P, W, what, ok)
+            if not ok: out.append(Finding(pr, "C16.h", P, W, what, msg, witness="one meta-model with a GlobalRepo provider (relative pattern), two loads with different project_root / a model given as a string"))
+    def state():
+        return (list(prov.get(".filename_pattern_list") or []), list(prov.get(".models_to_be_added_directly") or []))
+    st0 = state()
+    rep("the provider keeps the registered patterns and directly added models", st0[0] == ["lib/*.mdl", "/abs/std/*.mdl"] and len(st0[1]) == 1 and st0[1][0] is direct,
+        "a provider created with the pattern lib/*.mdl, then register_models('/abs/std/*.mdl') and add_model(m) holds patterns %s and %d directly added models; documented: both patterns in registration order and the model" % (st0[0], len(st0[1])))
+    def load_(model):
+        log = []
+        model["._tx_model_repository"] = {".load_models_using_filepattern": pyeval.PyFn(lambda *a_, **k_: log.append(("pattern", a_, k_))), "._add_model": pyeval.PyFn(lambda m_: log.append(("add", m_)))}
+        return call(prov, "_load_referenced_models", model, "latin-1"), log
+    params1 = {"project_root": "/p1"}; params2 = {"project_root": "/p2"}; params3 = {}
+    m1 = HS({".kind": "model", "._tx_filename": "/p1/a.mdl", "._tx_model_params": params1})
+    m2 = HS({".kind": "model", "._tx_filename": "/p2/b.mdl", "._tx_model_params": params2})
+    m3 = HS({".kind": "model", "._tx_filename": None, "._tx_model_params": params3})           # a model given as a string, no project_root
+    for what, m_, params, want_pat in (("first load, project_root /p1", m1, params1, ["/p1/lib/*.mdl", "/abs/std/*.mdl"]), ("second load, project_root /p2", m2, params2, ["/p2/lib/*.mdl", "/abs/std/*.mdl"]),
+                                       ("a model given as a string, no project_root", m3, params3, ["lib/*.mdl", "/abs/std/*.mdl"]), ("the first file again", m1, params1, ["/p1/lib/*.mdl", "/abs/std/*.mdl"])):
+        (k, v), log = load_(m_)
+        pats = [e for e in log if e[0] == "pattern"]; adds = [e[1] for e in log if e[0] == "add"]
+        got_pat = [(e[1][0] if e[1] else e[2].get("filename_pattern")) for e in pats]
+        okp = k == "ret" and got_pat == want_pat and all(e[2].get("model") is m_ and e[2].get("glob_args") is gargs and e[2].get("encoding") == "latin-1" and e[2].get("model_params") is params for e in pats) and len(adds) == 1 and adds[0] is direct
+        rep(what + ": patterns, model, glob_args, encoding and parameters handed to the repository", okp,
+            "%s: _load_referenced_models %s and asks the model's repository for the patterns %s (documented %s: a relative pattern is joined to the project_root of the model being loaded, an absolute one is used as it is) %s, and adds %d model(s) directly (documented: the one added with add_model)" % (what, "completes" if k == "ret" else "raises " + str(v), got_pat, want_pat, "with the model, the provider's glob_args, the encoding and the model's parameters" if all(e[2].get("model") is m_ and e[2].get("glob_args") is gargs and e[2].get("encoding") == "latin-1" and e[2].get("model_params") is params for e in pats) else "but not with this model / the provider's glob_args / the encoding / this model's parameters", len(adds)))
+        st = state()
+        rep(what + ": the provider is unchanged afterwards", st[0] == st0[0] and len(st[1]) == len(st0[1]) and all(x_ is y_ for x_, y_ in zip(st[1], st0[1])),
+            "after %s the provider holds the patterns %s and %d directly added model(s); before: %s and %d - a load must not leave a trace in the provider object (it serves every later load of the meta-model)" % (what, st[0], len(st[1]), st0[0], len(st0[1])))
     return inst, out
